@@ -139,9 +139,10 @@ def run(tier, replay_file=None):
     R.cov["trees_enumerated"] = len(trees)
     if quick:
         core = [t for t in trees if t["core"]]
-        mixed = [t for t in trees if " AND " in t["xmin"] and " OR " in t["xmin"]]      # AND and OR in one condition: always replayed
-        rest = [t for t in trees if not t["core"] and t not in mixed]
-        trees = rng.sample(core, min(500, len(core))) + rng.sample(rest, min(500, len(rest))) + rng.sample(mixed, min(150, len(mixed))) + chains
+        mixed = [t for t in trees if " AND " in t["xmin"] and " OR " in t["xmin"]]      # AND and OR in one condition: a fixed share is replayed
+        ints = [t for t in trees if "INT(" in t["xmin"] and t not in mixed]                # INT of anything (negative arguments are rare): all replayed
+        rest = [t for t in trees if not t["core"] and t not in mixed and t not in ints]
+        trees = rng.sample(core, min(500, len(core))) + rng.sample(rest, min(500, len(rest))) + rng.sample(mixed, min(150, len(mixed))) + ints + chains
     workdir = tempfile.mkdtemp(prefix="vx_")
     stats = {}
     try:
